@@ -35,7 +35,7 @@ fn build_root() -> Context<'static> {
     ctx
 }
 
-const P18: [&str; 34] = [
+const P18: [&str; 36] = [
     "xs + [9]", "xs + ys", "xs + xs", "(xs + ys) + xs", "e + xs", "s + 'c'", "s + s", "es + s", "xs.map(v, v + 1)", "xs.filter(v, v > 1)", "n.map(l, l + [0])", "n[0] + n[1]",
     "m.k + [2]", "m.map(k, m[k] + [5])", "[xs, xs]", "{'a': xs}", "r0 + [7]", "r0 + r0",
     // a macro that fails in the middle of its loop, and macros that read a same-named outer
@@ -54,6 +54,9 @@ const P18: [&str; 34] = [
     // two programs of the same shape (same node ids) with different literals; the first fails after
     // evaluating its literals (state left behind by an aborted evaluation, keyed by position)
     "[s + 'xAAA!', b'AAA', 'AAA', string(10 / (xs[0] - 1))]", "[s + 'xBBB!', b'BBB', 'BBB', string(10 / (xs[0] - 0))]",
+    // membership in two equal-shaped temporary lists of eight strings (an index remembered by the
+    // address and length of a temporary would be stale)
+    "'q' in (['a', 'b', 'c', 'd', 'e', 'f', 'g'] + ['q'])", "['z' in (['a', 'b', 'c', 'd', 'e', 'f', 'g'] + ['z']), ['a', 'b', 'c', 'd', 'e', 'f', 'g', 'h'].all(y, y in (['1', '2', '3', '4', '5', '6', '7'] + [y]))]",
 ];
 
 fn arc_id(v: &Value) -> Option<(usize, usize)> {
